@@ -77,7 +77,8 @@ def obligations(tier, rng):
         f2 = rng.sample(f2, max(1, len(f2) * 6 // 100))
     for f in f2:
         for N in ([4] if quick else [3, 5]):
-            out.append(ob('C01', 'offline', 'F2/%s/N=%d' % (text(f), N), f=f, N=N, kind='combined', ext=_ext_ok(f),
+            # extended-real operands on the short trace only (nested (k,r) terms: single queries approach the solver timeout on N=5)
+            out.append(ob('C01', 'offline', 'F2/%s/N=%d' % (text(f), N), f=f, N=N, kind='combined', ext=_ext_ok(f) and N <= 4,
                           times='fixed'))
     # F3: seeded deeper formulas
     n3 = 40 if quick else 600
